@@ -348,6 +348,18 @@ def execute(plan):
     for ch in lost_real:
         out[ch] = None
     fired = runner.fired_faults(r.trace)
+    if oom:
+        # did the allocator actually refuse a request (the shim reports it at exit)?
+        try:
+            with open(os.path.join(root, "heap.trace")) as f:
+                m = re.search(r"failed=(\d+)", f.read())
+            if m and int(m.group(1)):
+                fired["alloc-fail"] = fired.get("alloc-fail", 0) + 1
+        except OSError:
+            if r.status != 0 or r.signal:
+                fired["alloc-fail"] = fired.get("alloc-fail", 0) + 1     # _Exit from the new-handler: no exit report, but only a refused request ends that way
+    if cwdgone:
+        fired[cwdgone] = fired.get(cwdgone, 0) + 1
     incomplete = sorted(ch for ch in job["outputs"]
                         if ch in lost_real or out[ch] is None or out[ch] != g["out"][ch])
     violations = []
